@@ -1,4 +1,5 @@
 """C18 - registration is validated and makes items reachable where declared."""
+import json
 import re
 from .. import mir, hir
 from ..callgraph import CallGraph
@@ -921,6 +922,51 @@ def canary(C):
     return out
 
 
+def rule_i17(F):
+    """A name that is taken is refused - with ONE exception written into `declare_runtime_type`: the runtime registers the
+    primitives and `List` itself although the type checker already knows them, so for those kinds the declaration is skipped (only
+    the documentation is replaced).  That exception names its kinds: every exit of declare_runtime_type that answers Ok without
+    declaring anything sits behind a pattern that lists `TypeDefinition::Primitive` / `TypeDefinition::List` and nothing else.
+    Widened to 'anything that is not a runtime type' it also swallows `Option`, `Verdict` and `Result`: registering a Rust type
+    under such a name succeeds, the scope keeps the built-in enum and every signature that mentions the Rust type is wrong."""
+    r = RuleResult("C18.I17", "declare_runtime_type: the only already-declared names it lets pass are primitives and List, named in the pattern", floor=1)
+    ps = [p for p in F.paths() if p.endswith("::declare_runtime_type") and "{closure" not in p]
+    if not ps:
+        r.missing("TypeChecker::declare_runtime_type")
+        return r
+    b = F.body(ps[0])
+    if b is None or not b.hir:
+        r.missing("HIR of declare_runtime_type")
+        return r
+    ALLOWED = {"Primitive", "List"}
+    n = 0
+    for iff in hir.nodes(b.hir["value"], "if"):
+        rets = [x for x in hir.nodes(iff["then"], "ret") if "Ok" in str(hir.result_desc(x.get("e")))]
+        if not rets:
+            continue
+        if any(c["m"] in ("insert_type", "insert_declaration") for c in hir.nodes(iff["then"], "mcall")):
+            continue
+        n += 1
+        kinds = set()
+        negative = False
+        for l in [x for x in hir.walk(iff["cond"]) if x.get("k") == "let"]:
+            kinds |= set(re.findall(r"TypeDefinition::(\w+)", hir.pat_desc(l["pat"])))
+        for u in hir.walk(iff["cond"]):
+            if u.get("k") == "un" and u.get("op") in ("!", "Not") and "TypeDefinition::" in json.dumps(u)[:4000]:
+                negative = True
+            if u.get("k") == "match" and "TypeDefinition::" in " ".join(hir.pat_desc(a["pat"]) for a in u["arms"]):
+                kinds |= {"(matches! test)"}
+        r.inst("early Ok #%d" % n, {"line": iff.get("line"), "kinds_let_through": sorted(kinds), "negative_test": negative})
+        if not kinds or not kinds <= ALLOWED or negative:
+            r.bad(b.path, "already-declared name let through", relfile(b.file), iff.get("line") or b.line,
+                  "declare_runtime_type answers Ok without declaring anything for an existing declaration of kind %s: only primitives and List are registered by the runtime itself - a Rust "
+                  "type registered under the name of a built-in enum (`Option`, `Verdict`, `Result`) is accepted, the scope keeps the enum and signatures mentioning the Rust type are wrong"
+                  % (sorted(kinds) or "unrestricted"))
+    if n == 0:
+        r.missing("the skip of already declared primitives in declare_runtime_type")
+    return r
+
+
 def rules(ctx):
     F = ctx["F"]
-    return [rule_i1(F), rule_i2(F), rule_i3(F), rule_i4(F), rule_i5(F), rule_i6(F), rule_i7(F), rule_i8(F), rule_i9(F), rule_i10(F), rule_i11(F), rule_i12(F), rule_i13(F), rule_i14(F), rule_i15(F), rule_i16(F, ctx.get("FM"))]
+    return [rule_i1(F), rule_i2(F), rule_i3(F), rule_i4(F), rule_i5(F), rule_i6(F), rule_i7(F), rule_i8(F), rule_i9(F), rule_i10(F), rule_i11(F), rule_i12(F), rule_i13(F), rule_i14(F), rule_i15(F), rule_i16(F, ctx.get("FM")), rule_i17(F)]
